@@ -1323,6 +1323,15 @@ theorem newOp_inv {s : Sys} (kind : OpKind) (req : Kind) (a : Nat) (h : Inv s) :
       split
       · exact h
       · exact h.addOp (fresh _ rfl (by simp) (by simp) (fun _ => getElem?_lt ha))
+  | acceptp =>
+    simp only []
+    cases ha : s.handles[a]? with
+    | none => exact h
+    | some hh =>
+      simp only []
+      split
+      · exact h
+      · exact h.addOp (fresh _ rfl (by simp) (by simp) (fun _ => getElem?_lt ha))
   | toDirect =>
     simp only []
     cases ha : s.handles[a]? with
@@ -2422,6 +2431,17 @@ theorem kpost_inv {s : Sys} (i : Nat) (out : Outcome) (more : Bool) (h : Inv s) 
 
 /-! ### The synchronous `pipe2` fallback of `pipe` -/
 
+/-- The panicking poll of an accept is a poll followed by a drop of the handle it made. -/
+theorem pollPanic_inv {s : Sys} (i : Nat) (h : Inv s) : Inv (s.pollPanic i).1 := by
+  unfold Sys.pollPanic
+  cases hio : s.ops[i]? with
+  | none => exact h
+  | some o =>
+    simp only []
+    split
+    · exact dropH_inv _ (pollCore_inv i h)
+    · exact pollCore_inv i h
+
 theorem poll_inv {s : Sys} (i : Nat) (h : Inv s) : Inv (s.poll i).1 := by
   unfold Sys.poll
   cases hio : s.ops[i]? with
@@ -2430,7 +2450,9 @@ theorem poll_inv {s : Sys} (i : Nat) (h : Inv s) : Inv (s.poll i).1 := by
     simp only []
     split
     · exact h
-    · exact pollCore_inv i h
+    · split
+      · exact pollPanic_inv i h
+      · exact pollCore_inv i h
 
 /-- What `FOp.pipe2Due` says about the operation. -/
 theorem pipe2Due_elim {o : FOp} (hd : o.pipe2Due = true) :
@@ -2830,6 +2852,16 @@ theorem std_sync {s : Sys} (w : Nat) (h : SyncOk s) : SyncOk (s.std w).1 := by
   · exact h
   · exact h
 
+theorem pollPanic_sync {s : Sys} (i : Nat) (h : SyncOk s) : SyncOk (s.pollPanic i).1 := by
+  unfold Sys.pollPanic
+  cases hio : s.ops[i]? with
+  | none => exact h
+  | some o =>
+    simp only []
+    split
+    · exact dropH_sync _ (pollCore_sync i h)
+    · exact pollCore_sync i h
+
 theorem poll_sync {s : Sys} (i : Nat) (h : SyncOk s) : SyncOk (s.poll i).1 := by
   unfold Sys.poll
   cases hio : s.ops[i]? with
@@ -2838,7 +2870,9 @@ theorem poll_sync {s : Sys} (i : Nat) (h : SyncOk s) : SyncOk (s.poll i).1 := by
     simp only []
     split
     · exact h
-    · exact pollCore_sync i h
+    · split
+      · exact pollPanic_sync i h
+      · exact pollCore_sync i h
 
 theorem step_sync {s : Sys} (st : Step) (h : SyncOk s) : SyncOk (s.next st) := by
   unfold Sys.next Sys.step
